@@ -3,28 +3,10 @@
 package destination
 
 import (
-	"strings"
 	"time"
 
 	"github.com/grafana/carbon-relay-ng/stats"
 )
-
-// verifHealthyWriter: an endpoint that accepts everything.
-type verifHealthyWriter struct{ log []byte }
-
-func (w *verifHealthyWriter) Write(p []byte) (int, error) {
-	w.log = append(w.log, p...)
-	return len(p), nil
-}
-
-func verifTickerIdx(sub string) int {
-	for i := 0; i < verifNumTickers(); i++ {
-		if strings.Contains(verifTickerName(i), sub) {
-			return i
-		}
-	}
-	return -1
-}
 
 func verifNewConn(w *Writer, inCap int, pickle bool) *Conn {
 	keepsafe_initial_cap = 4
@@ -128,3 +110,4 @@ func VerifC05HandleData() {
 	}
 	verifCover("end")
 }
+
